@@ -1252,6 +1252,64 @@ func c13digestTwins(c *vf.Ctx, i int) {
 	c.Nontrivial(vf.Mix(0x13d, uint64(sa), uint64(sb), vf.HashBytes(key[:])))
 }
 
+// c13positionSweep: a query set of a little more than 2^14 non-members in
+// which exactly ONE item is a member, placed at every position in turn (each
+// case covers a block of positions).  An any-of strategy that splits large
+// queries into blocks must not lose an item at a block boundary, wherever the
+// boundaries are.
+const c13sweepBlock = 128
+const c13sweepSize = 1<<14 + 6
+
+func c13positionSweep(c *vf.Ctx, i int) {
+	r := vf.NewRand(vf.Mix(c.Seed, 0x5eed13)) // the same world for every case of a run
+	key := gcsKey(r)
+	P, M := uint8(19), uint64(gcsDefaultM)
+	N := 40
+	items := gcsItems(r, N+c13sweepSize+200)
+	members := items[:N]
+	var f *gcs.Filter
+	var err error
+	desc := func() string {
+		return fmt.Sprintf("P=%d M=%d N=%d key=%x, query of %d items", P, M, N, key, c13sweepSize)
+	}
+	if !c.Call("BuildGCSFilter", desc, func() { f, err = gcs.BuildGCSFilter(P, M, key, members) }) || err != nil || f == nil {
+		c.Inconclusive("position-sweep-build-failed")
+		return
+	}
+	nm := uint64(N) * M
+	inSet := map[uint64]bool{}
+	for _, it := range members {
+		inSet[ref.GCSValue(key, it, nm)] = true
+	}
+	q := make([][]byte, 0, c13sweepSize)
+	for _, it := range items[N:] {
+		if len(q) < c13sweepSize && !inSet[ref.GCSValue(key, it, nm)] {
+			q = append(q, it)
+		}
+	}
+	if len(q) < c13sweepSize {
+		c.Inconclusive("position-sweep-too-few-nonmembers")
+		return
+	}
+	lo := i * c13sweepBlock
+	for p := lo; p < lo+c13sweepBlock && p < c13sweepSize; p++ {
+		saved := q[p]
+		q[p] = members[p%N]
+		var z, a bool
+		if !c.Call("ZipMatchAny", desc, func() { z, _ = f.ZipMatchAny(key, q); a, _ = f.MatchAny(key, q) }) {
+			return
+		}
+		q[p] = saved
+		c.Evals(2)
+		if !z || !a {
+			c.Failf("ZipMatchAny/agreement", "%s: the only member sits at query position %d: ZipMatchAny=%v MatchAny=%v, but the item matches individually", desc(), p, z, a)
+			return
+		}
+	}
+	c.Count("positions_of_the_only_member_swept", int64(c13sweepBlock))
+	c.Nontrivial(vf.Mix(0x13e, uint64(i), c.Seed))
+}
+
 // gcsSelfTest validates the references used by C13 and C14.
 func gcsSelfTest() error {
 	if err := ref.SelfTestSipHash(); err != nil {
@@ -1338,6 +1396,7 @@ func init() {
 			{Name: "grid", N: func(t vf.Tier) int { return gcsGridCount() * t.Sz(1, 2) }, Run: c13grid, RlimitAS: gcsRlimit},
 			{Name: "random", N: func(t vf.Tier) int { return t.Sz(1500, 20000) }, Run: c13random, RlimitAS: gcsRlimit, MaxCaseSec: 120},
 			{Name: "digest-twins", N: func(t vf.Tier) int { return t.Sz(9, 90) }, Run: c13digestTwins, MaxCaseSec: 120},
+			{Name: "member-position-sweep", N: func(t vf.Tier) int { return (c13sweepSize + c13sweepBlock - 1) / c13sweepBlock }, Run: c13positionSweep, MaxCaseSec: 120},
 			{Name: "many-calls", Workers: 1, Shards: 4, N: func(t vf.Tier) int { return t.Sz(8, 48) }, Run: c13manyCalls, MaxCaseSec: 120},
 		},
 	})
